@@ -6,10 +6,10 @@ Then keep it as /verif/seeded/<Cxx>-<n>/ and run the given quick checks against 
 import json, os, shutil, subprocess, sys
 prop, n = sys.argv[1], sys.argv[2]
 checks = sys.argv[3:] or [prop]
-src = "/tmp/mut/%s" % prop
+src = "%s/%s" % (os.environ.get("MUT_SRC", "/tmp/mut"), prop)
 patch = "%s/patch%s.diff" % (src, n)
 demo = "%s/demo%s.py" % (src, n)
-wt = "/tmp/sw_%s_%s" % (prop, n)
+wt = "/tmp/sw_%s_%s%s" % (prop, os.environ.get("MUT_TAG", ""), n)
 def sh(cmd, **kw):
     return subprocess.run(cmd, shell=True, stdout=subprocess.PIPE, stderr=subprocess.STDOUT, text=True, **kw)
 sh("git -C /repo worktree remove --force %s" % wt)
@@ -31,7 +31,7 @@ try:
 finally:
     sh("git -C /repo worktree remove --force %s" % wt)
     shutil.rmtree(wt, ignore_errors=True)
-dst = "/verif/seeded/%s-%s" % (prop, n)
+dst = "/verif/seeded/%s-%s%s" % (prop, os.environ.get("MUT_TAG", ""), n)
 os.makedirs(dst, exist_ok=True)
 shutil.copy(patch, dst + "/patch.diff"); shutil.copy(demo, dst + "/demo.py")
 notes = open("%s/notes%s.txt" % (src, n)).read() if os.path.exists("%s/notes%s.txt" % (src, n)) else ""
